@@ -186,7 +186,7 @@ func (g *gen) varargFuncStmt() []Stmt {
 	return []Stmt{
 		&LocalFunc{Name: name, F: &Func{Params: params, IsVar: true, Body: body}},
 		Emit(S("results"), C(N(name), args...)),
-		Emit(S("count"), C(N("select"), S("#"), C(N(name), args...))),
+		Emit(S("count"), C(N("select"), S("#"), CloneExpr(C(N(name), args...)))),
 	}
 }
 
